@@ -5,9 +5,14 @@ from oracledefs import config
 CONFIG = Comp('config', n_quick=450, n_thorough=40000, oracle=config.config_oracle, nontrivial=config.config_nontrivial,
               stats=config.config_stats, header_lines=1, chunk_min=450)
 
+from oracledefs import power
+# power loss: the stored configuration must be fsync'ed before the rename publishes it (D42, repaired by 338fc07)
+POWER_C20 = Comp('power', n_quick=8, n_thorough=60, oracle=power.power_oracle, nontrivial=power.power_nontrivial, stats=power.power_stats,
+                 chunk_min=2, timeout=1800, header_lines=1)
+
 reg(Prop('C20', 'Kevo.Props.C20',
          facts=['consts:config.*', 'facts:config.*'],
-         components=[CONFIG],
+         components=[CONFIG] + ([POWER_C20] if power.strace_usable() else []),
          fact_tags=['config'],
          rule='translator: Config.Validate is re-translated into Kevo.Gen.Config.validate on every run and validate_iff (= the '
               'documented constraints) is re-proved against it. component config: the real Validate / SaveManifest / '
@@ -22,7 +27,8 @@ reg(Prop('C20', 'Kevo.Props.C20',
               'WALDir/SSTDir/MemTableSize (observed: the engine\'s config struct and the directory the log files appear in). '
               'Oracle (Python re-implementation of the documented constraints and defaults): see lib/oracledefs/config.py. '
               'Non-trivial: a successful save followed by a load/open, or a rejection, or damage followed by a load/open; '
-              'distinct by script hash.',
+              'distinct by script hash. Plus component power (see C02): the database directory rebuilt from the fsync\'ed bytes after '
+              'every acknowledgement must open with its stored configuration; no file (MANIFEST) is renamed into place unsynced.',
          trusted_base=['encoding/json is an abstract codec in the theorems (laws: round trip on encodable configurations; no proper '
                        'prefix of an encoded configuration decodes); the executable stand-in goCodec is used only by the driver',
                        'Kevo.Base.GoVal fixes the meaning of the translated operators (IEEE comparisons on NaN/Inf, string = bytes)'],
